@@ -40,6 +40,17 @@ CORPUS = [
     ("1.2021.03", "MAJOR.YYYY.0W", dict(major=True), "2021-01-02"),
     ("1.2.3-beta3", "MAJOR.MINOR.PATCH[-TAGNUM]", dict(tag="beta", tag_num=True), None),   # same tag again: NUM keeps counting
     ("1.9.99-beta", "MAJOR.MINOR[.PATCH][-TAG]", dict(minor=True), None),
+    # optional groups that end in literal text, or hold INC1 / a week part: omitted exactly when all their PARTS are zero
+    ("1.2.3-rc.1-x", "MAJOR.MINOR.PATCH[-TAG[.NUM]-x]", dict(tag="final"), None),
+    ("1.2.3-rc.1-x", "MAJOR.MINOR.PATCH[-TAG[.NUM]-x]", dict(major=True, tag="final"), None),
+    ("v1.2.1+local", "vMAJOR.MINOR[.PATCH[-TAG]+local]", dict(minor=True), None),
+    ("2020.10.5", "YYYY.MM[.INC1]", dict(), "2020-11-01"),
+    ("1.4.7", "MAJOR.MINOR[.INC1]", dict(minor=True), None),
+    ("v2020.52", "vYYYY[.WW]", dict(), "2021-01-02"),
+    ("2020.10.3", "YYYY.MM.INC0", dict(pin_increments=True), "2020-11-01"),            # a pinned increment is still reset by a rollover to its left
+    ("1.5.7", "MAJOR.INC0.INC1", dict(pin_increments=True, major=True), None),
+    ("1.2.3-rc.5", "MAJOR.MINOR.PATCH[-TAG[.INC0]]", dict(tag="final"), None),         # the tag moves to an alphabetically smaller value: still a change
+    ("v2024.33-beta4", "vYYYY.BLD[-TAGNUM]", dict(), "2024-06-01"),
 ]
 RESET_INIT = {"major": 0, "minor": 0, "patch": 0, "num": 0, "inc0": 0, "inc1": 1}
 CAL_FIELDS = ["year_y", "year_g", "quarter", "month", "dom", "doy", "week_w", "week_u", "week_v"]
